@@ -29,10 +29,15 @@ class NotifyServer:
                     len(self.connections) - 1,
                 )
 
-                for peer in self.connections.values():
+                for peer_addr, peer in list(self.connections.items()):
                     if peer != writer:
-                        peer.write(data)
-                        await peer.drain()
+                        try:
+                            peer.write(data)
+                            await peer.drain()
+                        except (ConnectionError, OSError):
+                            # that peer is gone; this must not stop the
+                            # notifications of the sender
+                            self.connections.pop(peer_addr, None)
             except asyncio.IncompleteReadError:
                 # the peer is gone
                 break
@@ -42,7 +47,7 @@ class NotifyServer:
             except:
                 self.log.exception("server loop")
                 break
-        del self.connections[addr]
+        self.connections.pop(addr, None)
 
     async def run(self):
         try:
